@@ -148,7 +148,21 @@ def run_data(ctx, case):
                              'variant %s: declared ch_size=%d inflated=%d -> data() returned %d bytes instead of ELFCompressionError' % (
                                  e['variant'], e['ch_size'], len(e['payload']), len(got)), case)
                 except L['ELFCompressionError']:
-                    pass
+                    # the same object asked again (a caller that logs the error and goes on, a second consumer of the section object):
+                    # what was rejected once stays rejected
+                    for attempt in (2, 3):
+                        try:
+                            got = sec.data()
+                            ctx.fail('data|compressed|inconsistent-accepted-when-asked-again|%s' % e['variant'],
+                                     'variant %s: declared ch_size=%d inflated=%d: the first data() raised ELFCompressionError, call %d on the same object returned %d bytes' % (
+                                         e['variant'], e['ch_size'], len(e['payload']), attempt, len(got)), case)
+                            break
+                        except L['ELFCompressionError']:
+                            pass
+                        except Exception as ex:  # noqa
+                            ctx.fail_exc('data|compressed|asked-again|%s' % e['variant'], ex, case)
+                            break
+                    ctx.count('sec.z.rejected-and-asked-again')
                 except zlib.error:
                     if e['variant'] != 'trunc':
                         ctx.fail('data|compressed|zlib.error|%s' % e['variant'], 'zlib.error escaped', case)
